@@ -188,7 +188,7 @@ func c08grammars(quick bool) []func() *recGrammar {
 }
 
 func buildRec(rg *recGrammar, tc g.TypeCache) (p *participle.Parser[any], err error, panicked string) {
-	opts := []participle.Option{participle.Lexer(lexDef), participle.UseLookahead(2)}
+	opts := []participle.Option{participle.Lexer(lexDef), participle.UseLookahead(2), participle.Elide("Space")}
 	// the root is U0 itself: Build[any] needs the `any` union to have the root struct... use a wrapper member
 	rootStruct := rg.structs[0]
 	opts = append(opts, participle.Union[any](reflect.New(tc.GoType(rootStruct)).Elem().Interface()))
@@ -218,7 +218,7 @@ var c08inputs = func() []string {
 	for l := 1; l <= 4; l++ {
 		var next []string
 		for _, p := range prev {
-			for _, c := range "xyz" {
+			for _, c := range "xyz " {
 				next = append(next, p+string(c))
 			}
 		}
@@ -335,7 +335,7 @@ func planC08(c *hx.Ctx) *hx.Plan {
 		N:        len(gs),
 		Job:      func(w *hx.Worker, i int) { runC08(w, gs[i], "") },
 		Describe: func(i int) string { return c08key(gs[i]()) },
-		Rule:     "1-3 mutually referring productions (each a union with one struct member, so reflect.StructOf can build the recursion); bodies are all terms of up to 2 leaves (3 on a reduced leaf set) over {\"x\", @@P0, @@P1, @@P2} with every modifier, plain groups, (?= ), (?! ) and ~ on the leaves, crossed with menus of bodies for the other productions. An independent decision procedure (nullability fixpoint + left-edge call graph + cycle test) gives the expected verdict; every grammar Build accepts is parsed on every input up to length 4 over {x,y,z} under a recursion-depth guard (Trace writer) as dynamic cross-validation. evaluations = grammars",
+		Rule:     "1-3 mutually referring productions (each a union with one struct member, so reflect.StructOf can build the recursion); bodies are all terms of up to 2 leaves (3 on a reduced leaf set) over {\"x\", @@P0, @@P1, @@P2} with every modifier, plain groups, (?= ), (?! ) and ~ on the leaves, crossed with menus of bodies for the other productions. An independent decision procedure (nullability fixpoint + left-edge call graph + cycle test) gives the expected verdict; every grammar Build accepts is parsed on every input up to length 4 over {x,y,z,space} (Space is elided) under a recursion-depth guard (Trace writer) as dynamic cross-validation. evaluations = grammars",
 		Bounds:   map[string]any{"inputs_per_accepted_grammar": len(c08inputs), "depth_limit": "40*(len(input)+2) trace levels"},
 		Assume:   []string{"an accepted left-recursive grammar is reported only with a concrete input on which the parser recurses without bound; without one it is listed as unconfirmed", "over-rejection rests on the decision procedure alone"},
 	}
